@@ -31,7 +31,11 @@
    document, never from the boxes); 22 the laid-out table (or the preferred
    widths / autoTableLayout / fixedTableLayout run on it) has a NaN or infinite
    width, position or size: such a value cannot be written as a Q, the harness
-   reports the table instead of comparing it. *)
+   reports the table instead of comparing it; 24 direction: rtl: the column
+   positions (running from the right edge of the content box) or a cell's x (the
+   position of the LAST column it spans) / width / border-box width differ from
+   the float32 model (Layout/TableGeom.v column_positions_rtl, cell_horizontal_rtl;
+   C13_cell_horizontal_rtl: the cell covers exactly its columns). *)
 From Verif Require Export Base.F32 Base.GoSem Layout.TableGeom Layout.TableGeomSpec Box.TableGridPlain Layout.TableGeomAuto.
 From Coq Require Import QArith List ZArith NArith Bool.
 Import ListNotations.
@@ -80,7 +84,10 @@ Inductive case :=
 | CFixed (w0 : Q) (cols : list oq) (cells : list fcell_in) (bsx : Q) (status : N) (out_cw : list Q) (out_w : Q)
 | CHoriz (x0 bsx : Q) (widths positions : list Q) (rows : list hrow)
 | CVert (y0 bsy : Q) (groups : list vgroup)
-| CWidths (fixed : N) (norig : N) (table_w spec : Q) (has_spec : bool) (bsx : Q) (widths : list Q).
+| CWidths (fixed : N) (norig : N) (table_w spec : Q) (has_spec : bool) (bsx : Q) (widths : list Q)
+(* direction: rtl -- content box x and used width of the table (the columns run
+   from x0 + tw), the rest as CHoriz *)
+| CHorizRtl (x0 tw bsx : Q) (widths positions : list Q) (rows : list hrow).
 
 Fixpoint qlist_eqb (l1 l2 : list Q) : bool :=
   match l1, l2 with
@@ -110,6 +117,13 @@ Definition horiz_row_ok (widths positions : list Q) (bsx : Q) (r : hrow) : N :=
   let 'HRow ins obs := r in
   match row_horizontal f32 widths positions bsx (map hcell_of ins) with
   | Ok m => if list_eqb2 hobs_eqb m obs then 0%N else 1%N
+  | _ => 6%N
+  end.
+
+Definition horiz_row_rtl_ok (widths positions : list Q) (bsx : Q) (r : hrow) : N :=
+  let 'HRow ins obs := r in
+  match row_horizontal_rtl f32 widths positions bsx (map hcell_of ins) with
+  | Ok m => if list_eqb2 hobs_eqb m obs then 0%N else 24%N
   | _ => 6%N
   end.
 
@@ -243,6 +257,9 @@ Definition model_out (c : case) : model_result :=
   | CVert y0 bsy groups =>
       MVert (groups_vertical f32 bsy (add f32 y0 bsy) (map (fun g => let 'VGroup _ _ rows _ := g in map vrow_of rows) groups))
   | CWidths _ _ table_w spec has bsx widths => MWidths (auto_contract slack table_w spec bsx has widths)
+  | CHorizRtl x0 tw bsx widths positions rows =>
+      let ps := column_positions_rtl f32 (add f32 x0 tw) bsx widths in
+      MHoriz ps (map (fun r => let 'HRow ins _ := r in row_horizontal_rtl f32 widths ps bsx (map hcell_of ins)) rows)
   end.
 
 Definition check (c : case) : N :=
@@ -306,6 +323,9 @@ Definition check (c : case) : N :=
                      Qle_bool (total - slack) table_w && Qle_bool table_w (total + slack)))
                 then 12%N   (* well-formed but narrower than the specified width *)
                 else 3%N
+  | CHorizRtl x0 tw bsx widths positions rows =>
+      if negb (qlist_eqb (column_positions_rtl f32 (add f32 x0 tw) bsx widths) positions) then 24%N
+      else first_nonzero (map (horiz_row_rtl_ok widths positions bsx) rows)
   end.
 
 Fixpoint mismatches (i : N) (cs : list case) : list (N * N) :=
